@@ -8,7 +8,7 @@ VERIF = os.path.dirname(os.path.dirname(HERE))
 sys.path.insert(0, VERIF)
 sys.path.insert(0, os.environ.get('VERIF_REPO', '/repo'))
 GEN_DIR = os.path.join(VERIF, 'coq', 'Gen')
-MODULES = []   # filled below as generators are added
+MODULES = sorted(f[:-3] for f in os.listdir(HERE) if f.startswith('gen_') and f.endswith('.py'))
 
 def write_if_changed(name, text):
     p = os.path.join(GEN_DIR, name)
@@ -21,7 +21,10 @@ def write_if_changed(name, text):
 def main():
     os.makedirs(GEN_DIR, exist_ok=True)
     rc = 0
+    only = sys.argv[1:]
     for modname in MODULES:
+        if only and modname not in only:
+            continue
         try:
             mod = importlib.import_module('tools.gen.' + modname)
             for fname, text in mod.generate().items():
